@@ -241,7 +241,11 @@ func (w *wal) flush(batch WALBatch) error {
 
 func (w WALBatch) replay(fs *fileStore) error {
 	for _, row := range w {
-		fs._nextLSN = row.LSN
+		// keep the counter above every logged LSN, but never below what the
+		// file header recorded: unlogged changes (CREATE TABLE) use LSNs too
+		if fs._nextLSN <= row.LSN {
+			fs._nextLSN = row.LSN + 1
+		}
 		node, err := fs.fetch(row.pageID)
 		if err != nil {
 			return err
@@ -285,6 +289,5 @@ func (w WALBatch) replay(fs *fileStore) error {
 		}
 	}
 
-	fs._nextLSN++
 	return fs.flushPages()
 }
